@@ -56,6 +56,10 @@ BOUNDED = {
              'bound': 'the real service on a loopback port: 2 787 request sequences (about 36 000 requests; thorough: base sequences up to length 3) mixing definitions operations over five models, /evaluate and /tck/evaluate, and 15 kinds of '
                       'malformed request (truncated JSON, missing parameters, invalid base64, invalid UTF-8 inside well-formed XML, truncated XML, unknown model / invocable, a body that is not a context, unknown endpoint) at every position: '
                       'every response is a well-formed JSON document, failures are in `errors`, successes in `data`, answers equal a reference workspace written out from the property (a rejected or malformed request changes nothing), and the service keeps answering'},
+            {'name': 'evaluate-answers-every-digit', 'driver': 'httpvalues', 'args': [],
+             'functions': ['post_evaluate / do_evaluate (server.rs) end to end on the real service', 'Value::jsonify'],
+             'bound': '136 echo decisions of one model (numbers with up to 34 digits, beyond 2^53 and 2^64, tiny and huge exponents, strings with every control character, temporal values, lists and contexts of them): '
+                      'the body of POST /evaluate/{model}/{decision} is, character for character, {"data": <the JSON rendering of the value evaluated directly>}'},
             {'name': 'tck-dto-round-trip', 'driver': 'tck', 'args': [],
              'functions': ['server/src/dto.rs (compiled into the driver from the repository file): TryFrom<&Value> for ValueDto, TryFrom<&ValueDto / &SimpleDto / &Vec<ComponentDto> / &ComponentDto / &ListDto / &Vec<ValueDto>> for WrappedValue', 'serde_json (real)'],
              'bound': '33 typed texts as a client sends them (every xsd type tag, integers at and beyond the 64-bit ranges, invalid texts: decoded to the FEEL value of the text or rejected, never a panic) and '
